@@ -42,6 +42,21 @@ def nocaseOut (a b : List UInt8) : String :=
   | some e, some la, some lb => s!"eq={b01 e} lower_eq={b01 (la == lb)}"
   | _, _, _ => oob
 
+/-- `fromCodes(x.chars()) == x`: decode-then-encode gives `x` back (true on standard UTF-8) -/
+def reenc (x : List UInt8) : String :=
+  match chars x with
+  | none => oob
+  | some cs => match fromCodes (cs.map Int.ofNat) with
+    | none => oob
+    | some y => b01 (y == x)
+
+/-- character counts before / after the case functions and well-formedness of their results -/
+def cvalidOut (s : List UInt8) : String :=
+  match count s, toUpperCase s, toLowerCase s with
+  | some n, some u, some l =>
+    s!"{n} {orOob ((count u).map toString)} {orOob ((count l).map toString)} {reenc u} {reenc l}"
+  | _, _, _ => oob
+
 def strOut (s : List UInt8) : String := s!"{convOut s} {caseOut s}"
 
 def codesOut (cs : List Int) : String :=
@@ -128,6 +143,8 @@ def step (_ : Unit) (ts : List String) : Unit × String :=
           | .ok out => s!"off={wideOffset b.length} cap={cap} wide={natList w} {lenHex out}"
           | .error f => s!"fault {faultName f}"
       | none => "bad-op"
+    | ["cvalid", h] => match unhex h with
+      | some b => cvalidOut b | none => "bad-op"
     | ["wlen", h] => match unhex h with
       | some b => orOob ((wlength b).map toString) | none => "bad-op"
     | ["warr", us] => match ints us with
